@@ -356,7 +356,7 @@ pub fn gen_world(base: u64, run: u64, profile: Profile) -> World {
 
     // ---- knobs
     let nthreads = match profile {
-        Profile::C19 => [1, 2, 2, 2, 3, 3, 4][kn.usize_below(7)],
+        Profile::C19 => [1, 2, 2, 2, 3, 3, 4, 2, 3, 4, 5, 6][kn.usize_below(12)],
         Profile::C09 => [1, 1, 1, 2, 2, 3][kn.usize_below(6)],
     };
     // 1 in 400 worlds: one big haystack (4-48 KB) whose candidate matches sit at distances
